@@ -44,6 +44,7 @@ LEVELS = {'uneven3': [0.0, 0.2, 0.55, 1.0], 'even2': [0.0, 0.5, 1.0]}
 DT = 0.01
 C_FD = 1e7
 H = 1e-2
+C_FD_INTERP = 4.5e9   # 1e-6 relative for the interpolation routines (rational dependence on the node positions)
 H_KINK = 1e-6        # step (in units of the natural amplitude) at base points that sit on a kink
 C_KINK = 4.5e11      # 1e-4 relative: O(h) truncation of the central difference at a kink + rounding eps/h
 
@@ -90,6 +91,9 @@ def units(tier, seed):
   for impl in (('real',) if tier == 'quick' else tuple(IMPLS)):
     us.append(dict(kind='upwind', impl=impl, levels='uneven3', palette=pal))
   us.append(dict(kind='interp'))
+  us.append(dict(kind='semi_lagrangian', palette=pal))
+  for integ in (('sil3',) if tier == 'quick' else ('sil3', 'rk3', 'euler')):
+    us.append(dict(kind='dfi', integ=integ, palette=pal))
   for n in ([4, 6] if tier == 'quick' else [4, 6, 8, 12]):
     us.append(dict(kind='scan', length=n, palette=pal))
   for outer, inner, swi in itertools.product((1, 2, 3), (1, 2), (False, True)):
@@ -487,8 +491,8 @@ def _work_interp(unit, rec):
   hq = 0.125          # natural amplitude of the query coordinate (lattice step)
   for size in (2, 3, 4):
     fp = np.array([((-1) ** j) * (1.0 + 0.5 * j) for j in range(size)])
-    hv = np.concatenate([[hq], np.ones(size)])
-    E = np.eye(size + 1) * (H * hv)[:, None]
+    hv = np.concatenate([[hq], np.full(size, hq), np.ones(size)])
+    E = np.eye(2 * size + 1) * (H * hv)[:, None]
     for rname, (fn, nsafe) in routines.items():
       cases = []
       for nodes in itertools.combinations(lattice, size):
@@ -505,16 +509,17 @@ def _work_interp(unit, rec):
           cases.append((nodes, q, at_kink))
       if not cases:
         continue
-      f = lambda z, xp, fn=fn: jnp.atleast_1d(fn(z[0], xp, z[1:]))
-      Z = jnp.asarray(np.array([np.concatenate([[q], fp]) for _, q, _ in cases]))
-      XP = jnp.asarray(np.array([nodes for nodes, _, _ in cases]))
-      Jf = np.asarray(jax.jit(jax.vmap(jax.jacfwd(f), in_axes=(0, 0)))(Z, XP))[:, 0, :]
-      Jr = np.asarray(jax.jit(jax.vmap(jax.jacrev(f), in_axes=(0, 0)))(Z, XP))[:, 0, :]
-      fb = jax.jit(jax.vmap(jax.vmap(f, in_axes=(0, None)), in_axes=(0, 0)))
+      # differentiated input z = (query, source coordinates xp, source values fp): the source coordinates are traced
+      # too (the semi-Lagrangian step interpolates from state-dependent departure levels)
+      f = lambda z, fn=fn: jnp.atleast_1d(fn(z[0], z[1:1 + size], z[1 + size:]))
+      Z = jnp.asarray(np.array([np.concatenate([[q], nodes, fp]) for nodes, q, _ in cases]))
+      Jf = np.asarray(jax.jit(jax.vmap(jax.jacfwd(f)))(Z))[:, 0, :]
+      Jr = np.asarray(jax.jit(jax.vmap(jax.jacrev(f)))(Z))[:, 0, :]
+      fb = jax.jit(jax.vmap(jax.vmap(f)))
       Zn = np.asarray(Z)
-      ev = lambda c: np.asarray(fb(jnp.asarray(Zn[:, None, :] + c * E[None, :, :]), XP))[:, :, 0]
+      ev = lambda c: np.asarray(fb(jnp.asarray(Zn[:, None, :] + c * E[None, :, :])))[:, :, 0]
       fd = (8 * (ev(1) - ev(-1)) - (ev(2) - ev(-2))) / (12 * H)
-      f0 = np.asarray(jax.jit(jax.vmap(f, in_axes=(0, 0)))(Z, XP))[:, 0]
+      f0 = np.asarray(jax.jit(jax.vmap(f))(Z))[:, 0]
       for ci, (nodes, q, at_kink) in enumerate(cases):
         key = ('interp', rname, list(nodes), q)
         site = 'interp:' + rname
@@ -523,11 +528,54 @@ def _work_interp(unit, rec):
         scale = max(float(np.abs(jf).max()) if np.all(np.isfinite(jf)) else 1.0, abs(float(f0[ci])) if np.isfinite(f0[ci]) else 1.0, 1e-300)
         rec.close(jf, jr, scale=scale, site=site + '/forward_equals_reverse_transposed', key=key)
         if not at_kink:
-          rec.close(jf, fd[ci], scale=scale, C=C_FD, site=site + '/forward_equals_central_difference', key=key)
+          # rational in the source coordinates (1/(xp[i+1]-xp[i])): the 4-point truncation is ~(h/dx)^4 ~ 6e-10, so 1e-6 relative here
+          rec.close(jf, fd[ci], scale=scale, C=C_FD_INTERP, site=site + '/forward_equals_central_difference', key=key)
         else:
           rec.note('interp_query_at_kink_fd_skipped')
-        rec.case(key, transitions=2 * (size + 1) + (0 if at_kink else 4 * (size + 1)), outcome=Jf[ci].tobytes(), nontrivial=bool(np.any(Jf[ci] != 0)),
-                 sample={'routine': rname, 'nodes': list(nodes), 'query': q, 'at_kink': at_kink, 'jacobian_wrt_(x,fp)': Jf[ci].tolist()})
+        rec.case(key, transitions=2 * (2 * size + 1) + (0 if at_kink else 4 * (2 * size + 1)), outcome=Jf[ci].tobytes(), nontrivial=bool(np.any(Jf[ci] != 0)),
+                 sample={'routine': rname, 'nodes': list(nodes), 'query': q, 'at_kink': at_kink, 'jacobian_wrt_(x,xp,fp)': Jf[ci].tolist()})
+
+
+def _work_semi_lagrangian(unit, rec):
+  """semi_lagrangian_vertical_advection_step interpolates every 3-D field from departure levels that depend on the
+  state (sigma - dt * sigma_dot): the derivative flows through the source COORDINATES of the interpolation."""
+  import jax, jax.numpy as jnp
+  from dinosaur import primitive_equations as pe
+  pal = unit['palette']
+  u = dict(impl='real')
+  bnds = LEVELS['uneven3']; K = 3
+  M, L = GRID[0], GRID[1]
+  impl, specs, coords, eq, tref = _pe_setup(u, 'PrimitiveEquations', K, bnds)
+  fields = tuple((f_, zm, 1 if f_ == 'lnps' else K) for f_, zm in PE_FIELDS)
+  dense = _dense(K, M, L, pal, fields)
+  p00 = _lnps_mean(specs, M, L)
+  s0 = harness.pe_state('PrimitiveEquations', coords, impl, dense['vorticity'], dense['divergence'], dense['temperature'], dense['lnps'] + p00)
+  x0, unravel = _flat(s0)
+  hvec = _scales_like(s0, _pe_amp(s0))
+  for dt in (0.05, -0.02):
+    f = lambda x, dt=dt: _flat(pe.semi_lagrangian_vertical_advection_step(unravel(x), coords, dt))[0]
+    # piecewise linear in the departure level: the small-step two-point rule keeps the stencil inside one piece
+    _jacobians(rec, f, x0, ('semi_lagrangian_step', dt), 'semi_lagrangian_vertical_advection_step', hvec=hvec, kink=True)
+
+
+def _work_dfi(unit, rec):
+  """digital_filter_initialization (forward + time-reversed integration, Lanczos-weighted accumulation) as one
+  differentiable function; forward mode, reverse mode and the central difference are separate evaluations of it in one
+  process, so the function must also be reproducible from call to call."""
+  import jax, jax.numpy as jnp
+  from dinosaur import time_integration as ti
+  step, s0, g = _scan_problem(unit['palette'])
+  u = dict(impl='real')
+  impl, specs, coords, eq, tref = _pe_setup(u, 'PrimitiveEquations', 2, LEVELS['even2'])
+  solver = {'sil3': ti.imex_rk_sil3, 'rk3': ti.crank_nicolson_rk3, 'euler': ti.backward_forward_euler}[unit['integ']]
+  x0, unravel = _flat(s0)
+  hvec = _scales_like(s0, _pe_amp(s0))
+  for nsteps in (1, 2):
+    dfi = ti.digital_filter_initialization(eq, solver, [ti.exponential_step_filter(g, DT)], time_span=2 * nsteps * DT, cutoff_period=2 * nsteps * DT, dt=DT)
+    f = lambda x, dfi=dfi: _flat(dfi(unravel(x)))[0]
+    first = np.asarray(f(x0))
+    _jacobians(rec, f, x0, ('dfi', unit['integ'], nsteps), 'digital_filter_initialization', hvec=hvec)
+    rec.exact(np.asarray(f(x0)), first, site='digital_filter_initialization_reproducible_from_call_to_call', key=('dfi', unit['integ'], nsteps))
 
 
 def _scan_problem(pal):
